@@ -40,10 +40,11 @@ sys.exit(1 if bad else 0)
 PY
 done
 # (c) the controlled race lane: same proof with the spin baton in the -race binary (fewer seeds: it is slow)
-"$VERIF/sim/prepare.sh" "$S" race >/dev/null 2>&1 || exit 2
+R=$(mktemp -d /var/tmp/slimsim.XXXXXX); trap 'rm -rf "$S" "$R"' EXIT
+"$VERIF/sim/prepare.sh" "$R" race >/dev/null 2>&1 || exit 2
 for PROP in C11 C20; do
   for ((seed=1; seed<=6; seed++)); do
-    GORACE="halt_on_error=1 exitcode=66" "$S/bin/harness-race" determinism -spin -prop $PROP -seed $seed -runs 12 -fixtures /repo/trie/testdata > "$S/out/detspin-$PROP-$seed.log" 2>&1 &
+    GORACE="halt_on_error=1 exitcode=66" "$R/bin/harness-race" determinism -spin -prop $PROP -seed $seed -runs 12 -fixtures /repo/trie/testdata > "$S/out/detspin-$PROP-$seed.log" 2>&1 &
   done
   wait
   grep -h DIVERGENCE "$S"/out/detspin-$PROP-*.log | head -5
